@@ -64,6 +64,7 @@ pub fn run<'tcx>(tcx: TyCtxt<'tcx>) -> String {
     }
     // fingerprints: a normalised print of every body, hashed, keyed by crate-independent def-path (C20: a feature only adds items)
     let mut fps = vec![];
+    let mut keys = vec![];
     for ldid in tcx.hir_body_owners() {
         let did = ldid.to_def_id();
         if !matches!(tcx.def_kind(did), rustc_hir::def::DefKind::Fn | rustc_hir::def::DefKind::AssocFn | rustc_hir::def::DefKind::Closure) {
@@ -94,9 +95,11 @@ pub fn run<'tcx>(tcx: TyCtxt<'tcx>) -> String {
             }
         }
         fps.push(format!("{}:[\"{:016x}\",{}]", jstr(&key), h, txt.len()));
+        let public = !matches!(tcx.def_kind(did), rustc_hir::def::DefKind::Closure) && tcx.visibility(did).is_public();
+        keys.push(format!("{}:[{},{}]", jstr(&tcx.def_path(did).to_string_no_crate_verbose()), jstr(&key), public));
     }
     let adtj: Vec<String> = adts.iter().map(|(k, v)| format!("{}:{}", jstr(k), v)).collect();
-    format!("{{\"bodies\":{},\"intoiter_access\":[{}],\"intoiter_structs\":{{{}}},\"fingerprints\":{{{}}}}}", bodies, rows.join(","), adtj.join(","), fps.join(","))
+    format!("{{\"bodies\":{},\"intoiter_access\":[{}],\"intoiter_structs\":{{{}}},\"fingerprints\":{{{}}},\"bodykeys\":{{{}}}}}", bodies, rows.join(","), adtj.join(","), fps.join(","), keys.join(","))
 }
 
 /// strip crate-local numbering from Debug prints: `DefId(0:24 ~ vek[c083]::ops::X)` -> `DefId(vek::ops::X)`
